@@ -10,7 +10,7 @@ Import ListNotations.
 Local Open Scope Z_scope.
 Local Strategy 1000 [rsfuel].
 
-Lemma shift_damage_nil rc d r : shift_damage [] rc d r = Some [].
+Lemma shift_damage_nil {fuel} rc d r : shift_damage fuel [] rc d r = Some [].
 Proof. reflexivity. Qed.
 
 Definition acc_st (acc : root * term * bool * bool) : root := fst (fst (fst acc)).
@@ -22,7 +22,7 @@ Proof.
   destruct acc as [[[s tm] ret] dp]. unfold scroll_one, acc_st. cbn [fst].
   destruct ((Z.abs d >=? lines rc) || (Z.abs r >=? cols rc)).
   - cbn [fst]. apply win_expose_fault.
-  - destruct (shift_damage (r_damage s) rc d r) as [dmg|]; [|cbn [fst r_fault set_fault]; discriminate].
+  - destruct (shift_damage (r_fuel s) (r_damage s) rc d r) as [dmg|]; [|cbn [fst r_fault set_fault]; discriminate].
     destruct (term_scroll (if dp then tm else term_set_cvis tm false) rc d r) as [tm2 acc'].
     destruct acc'; cbn [fst].
     + intros H.
@@ -144,7 +144,7 @@ Section scroll_fold.
       + apply (de_later _ _ Hde).
       + intros q Hq. split; [reflexivity|apply (de_cov _ _ Hde)].
       + intros q Hq. left. apply Hcov; [apply HinV; exact Hq|apply Horig; exact Hq].
-    - destruct (shift_damage (r_damage s) rc d r) as [dmg|] eqn:Esh.
+    - destruct (shift_damage (r_fuel s) (r_damage s) rc d r) as [dmg|] eqn:Esh.
       2:{ injection H as <- _ _ _. cbn [r_fault set_fault] in Hf. discriminate. }
       destruct (shift_damage_covered _ _ _ _ _ Gne Hrc Esh) as [Hdne Hdcov].
       set (st1 := set_damage s dmg) in *.
